@@ -94,6 +94,14 @@ def translate():
         run(["go", "build", "-o", exe, "."], cwd=os.path.join(VERIF, "translator"), env=go_env(), check=True)
         stamp_set("go2coq", d)
     rc, out = run([exe, "-repo", REPO, "-out", GEN])
+    # gen/GenNatsErrors.v is written by C15's check from the values the real NATS client returns on that run; the other
+    # checks only need the file to exist (coqdep walks the whole _CoqProject): a fresh tree gets an empty table
+    ne = os.path.join(GEN, "GenNatsErrors.v")
+    if not os.path.exists(ne):
+        with open(ne, "w") as f:
+            f.write("(* placeholder written by lib/vlib.py translate(): bin/check C15 replaces it with the values captured from the NATS client *)\n"
+                    "From LE Require Import Base Strs Err.\nLocal Open Scope string_scope.\n"
+                    "Definition nats_errors : list (string * err) := [].\n")
     st = {}
     try:
         st = json.load(open(os.path.join(GEN, "STATUS.json")))
